@@ -7,7 +7,8 @@ if ! git apply "$p" 2>/dev/null; then
   if ! git apply -3 "$p" 2>/dev/null; then echo "PATCH DOES NOT APPLY: $p"; git reset -q --hard HEAD; exit 8; fi
   git reset -q
 fi
-( cd /verif && VERIF_DIR=/verif timeout 3600 ./run.sh $id $tier > /tmp/mutcheck.$$.log 2>&1 ); rc=$?
+mkdir -p /tmp/mut-evidence
+( cd /verif && VERIF_EVIDENCE_DIR=/tmp/mut-evidence VERIF_DIR=/verif timeout 3600 ./run.sh $id $tier > /tmp/mutcheck.$$.log 2>&1 ); rc=$?
 git -C /repo checkout -- .
 nviol=$(grep -c '^VIOLATION' /tmp/mutcheck.$$.log)
 echo "$id $p tier=$tier exit=$rc violations=$nviol"
